@@ -51,7 +51,7 @@ func init() {
 		Assumptions: append([]string{"/verif/spec/setters.json transcribes the API setters of the standard"}, commonAssumptions...)})
 	describe(&PropertyDoc{ID: "C06",
 		Explanation: "Structural facts behind the resolution laws.",
-		Decides:     []string{"the three resolution routes pass identical arguments into one algorithm, on the receiver's own parser (FLOW-funnel)", "'#f' against an opaque base inherits exactly scheme, path, query and is the only accepted relative form; '?q', '#f', empty inherit exactly the listed components; a scheme-less reference always takes the base's scheme (SM-inherit / SM-failpoints rows)", "every URL a resolution route hands out is the result of the one algorithm: no path bypasses it (FLOW-funnel, must-pass-through)"},
+		Decides:     []string{"the three resolution routes pass identical arguments into one algorithm, on the receiver's own parser (FLOW-funnel)", "'#f' against an opaque base inherits exactly scheme, path, query and is the only accepted relative form; '?q', '#f', empty inherit exactly the listed components; a scheme-less reference always takes the base's scheme (SM-inherit / SM-failpoints rows)", "the next-state relation of the no-scheme, relative, relative-slash and special-relative-or-authority states per class of code point, incl. failure for anything but '#' against an opaque base (SM-transitions)", "every URL a resolution route hands out is the result of the one algorithm: no path bypasses it (FLOW-funnel, must-pass-through)"},
 		NotDecided:  []string{"that the serialization of u resolves to u (C03 plus value behaviour)"},
 		Assumptions: commonAssumptions})
 	describe(&PropertyDoc{ID: "C07",
@@ -71,7 +71,7 @@ func init() {
 		Assumptions: commonAssumptions})
 	describe(&PropertyDoc{ID: "C10",
 		Explanation: "Set-level clauses decided completely; string-level codec laws are not.",
-		Decides:     []string{"membership of the six named sets for all 0x110000 code points equals the standard's; byte and rune predicates agree (TAB-sets)", "default option sets are the standard's (TAB-defaults)", "deriving a set returns a fresh set and never writes its parent (EFF-derive, TAB-ctor)", "named sets and bitsets are never written after initialisation (EFF-globals)", "escapes use upper-case hex in every function that writes a '%' (TAB-hex)", "a decoder consumes as hex digits of an escape only positions a dominating hex-digit test covered (FLOW-hexpair)", "the rune copy of a string is never indexed by a byte offset of that string (FLOW-units)", "in every encoder nothing reaches the result unencoded except under the set's own answer for that value; sub-encoders get the same set or a Set()-superset (FLOW-encgate)"},
+		Decides:     []string{"membership of the six named sets for all 0x110000 code points equals the standard's; byte and rune predicates agree (TAB-sets)", "default option sets are the standard's (TAB-defaults)", "deriving a set returns a fresh set and never writes its parent (EFF-derive, TAB-ctor)", "named sets and bitsets are never written after initialisation (EFF-globals)", "escapes use upper-case hex in every function that writes a '%' (TAB-hex)", "a decoder consumes as hex digits of an escape only positions a dominating hex-digit test covered (FLOW-hexpair)", "every decision 'a well-formed escape starts here' separates exactly 'three or more elements remain and both are hex digits' from everything else (FLOW-escvalid)", "the rune copy of a string is never indexed by a byte offset of that string (FLOW-units)", "in every encoder nothing reaches the result unencoded except under the set's own answer for that value; sub-encoders get the same set or a Set()-superset (FLOW-encgate)"},
 		NotDecided:  []string{"string-level laws (idempotence, decode∘encode) beyond the encoder gating on the set predicate"},
 		Assumptions: commonAssumptions})
 	describe(&PropertyDoc{ID: "C11",
@@ -106,12 +106,12 @@ func init() {
 		Assumptions: commonAssumptions})
 	describe(&PropertyDoc{ID: "C18",
 		Explanation: "Presence, on every path, of the mechanism that normalises each listed spelling variation.",
-		Decides:     []string{"with repeated decoding on, hostname, pathname, every pair name and value, and fragment are replaced by encode(decode-until-unchanged(·)) under benign guards only (FLOW-canon)", "dot-segment literals incl. %2e forms; tab/newline/whitespace sets (TAB-dots, TAB-ws)", "default-port elision (PAIR-port)"},
+		Decides:     []string{"with repeated decoding on, hostname, pathname, every pair name and value, and fragment are replaced by encode(decode-until-unchanged(·)) under benign guards only (FLOW-canon)", "dot-segment literals incl. %2e forms; tab/newline/whitespace sets (TAB-dots, TAB-ws)", "default-port elision (PAIR-port)", "fragment removal is the unconditional setter call under exactly its flag: an empty fragment goes too (OPT-canon)", "the repeated decoder consumes only tested hex positions, its notion of a well-formed escape and its digit values are exact (FLOW-hexpair, FLOW-escvalid, TAB-hexval)"},
 		NotDecided:  []string{"that two concrete spellings produce the same string"},
 		Assumptions: commonAssumptions})
 	describe(&PropertyDoc{ID: "C19",
 		Explanation: "Caches cannot go stale, or do not exist, in every reachable state.",
-		Decides:     []string{"port and decodedPort are always stored together; address-kind accessors derive from the host; 'present' decisions test the primary's nil-ness (PAIR-group)", "default ports are the standard's (TAB-schemes)", "the only constant DecodedPort can hand out is 0 (PAIR-group)", "the recogniser of dotted-decimal IPv4 text rejects for exactly: not four parts, a part longer than three digits, a part above 255 (TAB-thresholds)"},
+		Decides:     []string{"port and decodedPort are always stored together; address-kind accessors derive from the host; 'present' decisions test the primary's nil-ness (PAIR-group)", "default ports are the standard's (TAB-schemes)", "the only constant DecodedPort can hand out is 0 (PAIR-group)", "the default port comes from the table of the parser that made the URL (OPT-schemetable)", "the recogniser of dotted-decimal IPv4 text rejects for exactly: not four parts, a part longer than three digits, a part above 255 (TAB-thresholds)"},
 		NotDecided:  []string{"the rest of the textual definition of 'is a dotted-decimal IPv4 address' (digits only, no leading zero)"},
 		Assumptions: commonAssumptions})
 	describe(&PropertyDoc{ID: "C20",
